@@ -12,7 +12,7 @@ Inductive yaml :=
 
 Definition sd_tag : string := "!sd".
 
-(* "/a/b/0" from path segments; "" for the root *)
+(* "/a/b/0" from path segments (keys already escaped as JSON pointer tokens, repair F17c); "" for the root *)
 Fixpoint render_segs (segs : list string) : string :=
   match segs with [] => "" | s :: r => "/" ++ s ++ render_segs r end.
 
@@ -30,13 +30,13 @@ Fixpoint collect (path : list string) (y : yaml) : res (yaml * list string) :=
                          if String.eqb t sd_tag then
                            match kv with
                            | YStr ks =>
-                               do (v', ps) <- collect (path ++ [ks]) v;
+                               do (v', ps) <- collect (path ++ [esc_tok ks]) v;
                                do (rest', ps') <- go rest;
-                               Ok ((YStr ks, v') :: rest', (ps ++ [render_segs (path ++ [ks])] ++ ps')%list)
+                               Ok ((YStr ks, v') :: rest', (ps ++ [render_segs (path ++ [esc_tok ks])] ++ ps')%list)
                            | _ => Err end
                          else do (rest', ps') <- go rest; Ok ((k, v) :: rest', ps')
                      | YStr ks =>
-                         do (v', ps) <- collect (path ++ [ks]) v;
+                         do (v', ps) <- collect (path ++ [esc_tok ks]) v;
                          do (rest', ps') <- go rest;
                          Ok ((k, v') :: rest', (ps ++ ps')%list)
                      | _ => do (rest', ps') <- go rest; Ok ((k, v) :: rest', ps')
